@@ -195,6 +195,32 @@ def parseDurOut (s : String) : Option (Option Int) :=
   | ["ok", x] => x.toInt?.map some
   | _ => none
 
+
+/-! strings, numeric strings -/
+
+def sfieldOf : String → Option SField
+  | "otel" => some .otel | "logfile" => some .logfile | "env" => some .env | "id" => some .id
+  | "keyshare" => some .keyshare | "frostkeyshare" => some .frostkeyshare | "key" => some .key
+  | "enckey" => some .enckey | "topourl" => some .topourl | "topopath" => some .topopath
+  | "upurl" => some .upurl | "uptoken" => some .uptoken | _ => none
+
+def showStrOut : Option Bytes → String
+  | some b => "ok:" ++ toHexW b
+  | none => "err"
+
+def parseStrOut (s : String) : Option (Option Bytes) :=
+  if s == "err" then some none
+  else if s.startsWith "ok:" then (fromHex (s.drop 3).toString).map some
+  else none
+
+def numFieldKnown (kind field : String) : Bool :=
+  match kind with
+  | "evm" => ["maxGasPrice", "gasMultiplier", "gasIncreasePercentage", "gasLimit", "transferGas", "startBlock",
+              "blockConfirmations", "blockInterval", "blockRetryInterval"].contains field
+  | "sub" => ["chainID", "startBlock", "blockInterval", "blockRetryInterval", "substrateNetwork", "tip"].contains field
+  | "btc" => ["startBlock", "blockInterval", "blockRetryInterval", "blockConfirmations", "feeAmount"].contains field
+  | _ => false
+
 def handle (op : String) (args : List String) (impl : String) : Option Verdict :=
   match op, args with
   | "portrange", [w, lo, hi] => some <| Id.run do
@@ -302,6 +328,48 @@ def handle (op : String) (args : List String) (impl : String) : Option Verdict :
       let out := parseDur neg ts
       let ok := match parseDurOut impl with | some o => PDur neg ts o | none => false
       return ⟨showDur out, ok, s!"dur:{if out.isSome then "ok" else "err"}:terms={min ts.length 3}:neg={neg}"⟩
+  | "str", [field, loader, hex] => some <| Id.run do
+    let some f := sfieldOf field | return bad
+    if !(loader == "d" || loader == "f" || loader == "e") then return bad
+    let some v := fromHex hex | return bad
+    let out := loadStr f v
+    let ok := match parseStrOut impl with | some o => PStr f v o | none => false
+    let special := v.any fun c => c == 61 || c == 58 || c == 44 || c == 32 || c == 34 || c == 35 || c ≥ 128
+    return ⟨showStrOut out, ok, s!"str:{loader}:{if out.isSome then "ok" else "err"}:special={special}:long={decide (v.length > 100)}"⟩
+  | "numstr", [kind, field, hex] => some <| Id.run do
+    if !numFieldKnown kind field then return bad
+    let some t := fromHex hex | return bad
+    let out := if field == "feeAmount" then loadFee t else loadTypedFromString t
+    let ok := match parseDurOut impl with | some o => PNumStr t o | none => false
+    return ⟨showDur out, ok, s!"numstr:{if field == "feeAmount" then "fee" else "typed"}:{if out.isSome then "ok" else "err"}:decimal={(decimalReading t).isSome}"⟩
+  | pop, [w, loader, hex] =>
+    if !(pop == "porttext" || pop == "portbase" || pop == "portbasex") then none else some <| Id.run do
+    if !(w == "h" || w == "m") || !(loader == "d" || loader == "f" || loader == "e") then return bad
+    let some t := fromHex hex | return bad
+    if t.isEmpty then return bad
+    let showP (o : Option Nat) : String := match o with
+      | some p => if w == "h" then s!"ok:{p}:9000" else s!"ok:9001:{p}"
+      | none => "err"
+    let implOut : Option (Option Nat) :=
+      if impl == "err" then some none else
+      match impl.splitOn ":" with
+      | ["ok", h, mm] => (if w == "h" then h.toNat? else mm.toNat?).map some
+      | _ => none
+    let asIs := portText t
+    let conforms := PPortText t asIs
+    match pop with
+    | "porttext" =>
+      -- strict: the generator sends only texts whose base-0 reading is their decimal reading (or an error)
+      let ok := match implOut with | some o => PPortText t o | none => false
+      return ⟨showP (if conforms then asIs else none), ok, s!"porttext:{loader}:{if asIs.isSome then "ok" else "err"}"⟩
+    | "portbase" =>
+      -- KNOWN FINDING class (base prefixes / leading-zero octal / underscores), strict predicate
+      let ok := match implOut with | some o => PPortText t o | none => false
+      return ⟨showP (if conforms then asIs else none), ok, s!"portbase:{if conforms then "conforms" else "reinterpreted"}"⟩
+    | _ =>
+      -- the same texts with exactly the base-0 value excused
+      let ok := match implOut with | some o => PPortTextExc t o | none => false
+      return ⟨showP asIs, ok, s!"portbasex:{loader}:{if asIs.isSome then "ok" else "err"}"⟩
   | _, _ => none
 
 end Sygma.Drv.C20
